@@ -218,8 +218,9 @@ impl ScriptedDriver for SimDriver {
           if self.ticks_left > 0 && (!more || self.rng.below(100) < self.p_tick as usize) {
             self.ticks_left -= 1;
             if self.real_sleep && d <= Duration::from_millis(15) && self.slept_ns < 200_000_000 {
-              std::thread::sleep(d + Duration::from_micros(300));
-              self.slept_ns += d.as_nanos() as u64;
+              let extra = if self.rng.chance(1, 2) { 1 + self.rng.below(4) as u64 } else { 0 };
+              std::thread::sleep(d + Duration::from_micros(300) + Duration::from_millis(extra));
+              self.slept_ns += d.as_nanos() as u64 + extra * 1_000_000;
             }
             self.end(idx, RespRec::TimedOut);
             return Ok(VPollResult::TimedOut);
@@ -372,7 +373,7 @@ const INTERVALS: [i32; 4] = [200, 600, 1000, 1600];
 fn retime(ms: &mut Vec<Mapping>, rng: &mut Rng, mode: usize) {
   let alpha = alphabet_of(ms);
   for m in ms.iter_mut() {
-    let make_special = match &m.repeat { Repeat::Special { .. } => true, Repeat::Disabled => rng.chance(1, 4), Repeat::Normal => rng.chance(1, 4) };
+    let make_special = match &m.repeat { Repeat::Special { .. } => true, Repeat::Disabled => rng.chance(1, 3), Repeat::Normal => rng.chance(1, 3) };
     if !make_special { continue; }
     let mut keys: Vec<u16> = vec![];
     let n = rng.below(4);
@@ -493,17 +494,17 @@ struct CaseSpec { tag: String, mappings: Vec<Mapping>, plan: Plan, seed: u64, in
 fn make_cases(seed: u64, thorough: bool, scale: usize) -> Vec<CaseSpec> {
   let mut rng = Rng::new(seed ^ 0x100b);
   let mut cases: Vec<CaseSpec> = vec![];
-  let n_multi = (if thorough { 1500 } else { 260 }) * scale;
+  let n_multi = (if thorough { 12000 } else { 1500 }) * scale;
   let per_layout = if thorough { 4 } else { 3 };
   let mut layouts: Vec<(NamedLayout, usize)> = vec![];      // (layout, timing mode)
   for l in fixed_layouts() { layouts.push((l, 0)); }
   let mut fam = family_multi(&mut rng, n_multi);
   for (i, l) in fam.iter_mut().enumerate() {
-    let mode = if i % 11 == 5 { 1 } else if i % 17 == 7 { 2 } else { 0 };
+    let mode = if i % 7 == 5 { 1 } else if i % 17 == 7 { 2 } else { 0 };
     retime(&mut l.mappings, &mut rng, mode);
     l.tag = format!("{}/t{}", l.tag, mode);
   }
-  for (i, l) in fam.into_iter().enumerate() { let mode = if i % 11 == 5 { 1 } else if i % 17 == 7 { 2 } else { 0 }; layouts.push((l, mode)); }
+  for (i, l) in fam.into_iter().enumerate() { let mode = if i % 7 == 5 { 1 } else if i % 17 == 7 { 2 } else { 0 }; layouts.push((l, mode)); }
   let nfixed = 5;
   let mut li = 0usize;
   for (l, mode) in layouts {
@@ -527,7 +528,7 @@ fn make_cases(seed: u64, thorough: bool, scale: usize) -> Vec<CaseSpec> {
         max_calls: 400,
         fault_at: None,
       };
-      cases.push(CaseSpec { tag: l.tag.clone(), mappings: l.mappings.clone(), plan, seed: cseed, inject_all: (li + r) % (if thorough { 2 } else { 5 }) == 0 });
+      cases.push(CaseSpec { tag: l.tag.clone(), mappings: l.mappings.clone(), plan, seed: cseed, inject_all: (li + r) % (if thorough { 4 } else { 9 }) == 0 });
     }
     li += 1;
   }
